@@ -392,6 +392,10 @@ theorem agree_replace (E : Env) {ko : OK ρ} {kd : DK ρ} (hk : KAgree ko kd) (n
   · simp only [hd, h1, h2, Agree, bind, Except.bind]
     exact ⟨_, rfl, hle⟩
   · simp only [hd, h1, h2, bind, Except.bind]
+    cases callGuard E s.depth v with
+    | error e => simp [Agree]
+    | ok _ =>
+    simp only []
     rw [replaceValue_eq]
     cases Den.replaceValue v s.caps d.caps with
     | error e => simp [Agree]
@@ -408,6 +412,10 @@ theorem agree_matchtime (E : Env) {ko : OK ρ} {kd : DK ρ} (hk : KAgree ko kd) 
   · simp only [hd, h1, h2, Agree, bind, Except.bind]
     exact ⟨_, rfl, hle⟩
   · simp only [hd, h1, h2, bind, Except.bind]
+    cases callGuard E s.depth v with
+    | error e => simp [Agree]
+    | ok _ =>
+    simp only []
     rw [replaceValue_eq]
     cases Den.replaceValue v s.caps d.caps with
     | error e => simp [Agree]
